@@ -46,3 +46,19 @@ add("C20","fault_enumeration",
     "Held on every scenario produced: the same seeded client program run with 1-2 mirrors under a random mirror fault schedule (down, accept-and-hang/close, hang on query, slow, trickling replies, close/hang mid-reply, error replies) and without mirrors gives identical client-visible replies; latency verdicts are taken only from isolated re-runs; every mirror session's inbound traffic embeds as whole messages, in order, into one session of the mirrored server.",
     "Trusted: latency criterion 10x no-mirror latency + 250 ms, confirmed in >=2 of 4 isolated runs; backend identity fields masked in the differential comparison.",
     "runtime monitoring with fault injection: differential replies/latency + subsequence embedding of mirror traffic", "DESIGN.md 5 C20")
+add("C05","exploration",
+    "Held on every statement produced: millions of grammar-assembled messages per run at library level (generator knows the label by construction; only parser-accepted input is judged) under every default_role x primary_reads x session override x message type, and thousands of tagged statements on the wire judged by the role label of the receiving mock, incl. explicit SET SERVER ROLE and the no-substitute rule.",
+    "Trusted: the generator's read / not-a-read labels for its own small grammar; functions with side effects are outside the property; lib leg is inconclusive if pgv-lib no longer builds against the pgcat crate (wire leg still decides).",
+    "runtime monitoring: generated-input oracle on QueryRouter + wire-level routing labels", "DESIGN.md 5 C05")
+add("C06","exploration",
+    "Held on everything explored: Sharder::shard equals an independent transcription of PostgreSQL's hash partitioning for 2^24 (quick) or all 2^32 (thorough: exhaustive on that sub-space) values of the 32-bit word the hash consumes x 10 shard counts, random 64-bit keys and boundaries; every key-delivery path agrees; on the wire statements land on the mock of the reference shard, selection sticks, out-of-range SET SHARD refused.",
+    "Trusted base: the reference transcription of hashint8extended / hash_combine64, anchored only by the repo's shipped PostgreSQL-derived vectors (no PostgreSQL server in the sandbox); agreement on negative keys / high halves rests on the transcription of the fold.",
+    "runtime monitoring: differential against reference implementation (lib) + shard labels on the wire", "DESIGN.md 5 C06")
+add("C13","exploration",
+    "Held on every string produced: 10^6 (quick) / 10^8 (thorough) strings and command sequences over the command vocabulary against a hand-written three-valued reference recogniser and state machine (panics caught), plus wire sessions checking reply framing, SHOW agreement, byte-identical forwarding of non-commands and absence of command text at the mocks.",
+    "Trusted: the reference recogniser's must-accept / must-reject / don't-care partition (README's documented spellings); commands inside transactions or in session mode are not asserted.",
+    "runtime monitoring: reference-model oracle on try_execute_command + wire-level framing and mock log", "DESIGN.md 5 C13")
+add("C19","exploration",
+    "Held, apart from six listed known findings, on every statement produced: grammar-generated statements with relation slots over listed/unlisted/substring/alias-only names x 8 spellings x ~20 positions at library level, and 11 positions x 10 spellings on the wire over simple and extended protocol, inside and outside transactions, with plugins on and off; denied statements never reach a mock and get the permission error; intercept rules return exactly the configured rows.",
+    "Trusted: generator labels; PostgreSQL identifier folding rules as encoded in the generator; mixed multi-statement messages for intercept are don't-care. Known findings: DROP TABLE / GRANT / COMMENT ON positions, FROM ONLY and statements hidden behind SHOW / COPY FROM STDIN (parser limitations).",
+    "runtime monitoring: generated-input oracle on execute_plugins + mock log / client replies", "DESIGN.md 5 C19")
